@@ -420,6 +420,39 @@ scenarios:
 	}
 	res.Eval("http-scenario", true)
 	res.Count("http_scenario_samples", int64(len(samples)))
+
+	// a step that fails in its postprocessor (assertion on the status) is one sample too, reported as failed
+	yaml2 := strings.Replace(yaml, `    uri: "/second"
+    headers: {}
+`, `    uri: "/second"
+    headers: {}
+    postprocessors:
+      - type: "assert/response"
+        status_code: 200
+`, 1)
+	sp2 := base + "-assert.yaml"
+	_ = vkit.WriteMemAt(sp2, []byte(yaml2))
+	defer vkit.RemoveMem(sp2)
+	samples, rr, err = runPool(pool(map[string]any{"type": "http/scenario", "file": sp2, "limit": 6},
+		map[string]any{"type": "http/scenario", "target": tgt.Addr}, 3), 60*time.Second)
+	if err != nil || rr.Err != nil || rr.Hang {
+		res.Violate("C10/http-scenario/run", fmt.Sprintf("pool failed: %v %v", err, rr.Err), c)
+		return
+	}
+	cnt = map[string]int{}
+	okSecond := 0
+	for _, s := range samples {
+		first := strings.Split(s.Tags, "|")[0]
+		cnt[first]++
+		if first == "scn.second" && s.Net == 0 && s.Proto != 0 {
+			okSecond++
+		}
+	}
+	if cnt["scn.first"] != 6 || cnt["scn.second"] != 6 || okSecond != 0 {
+		res.Violate("C10/http-scenario/failed-step-sample-count", fmt.Sprintf("6 shots of [first, second(2)] where the first execution of second fails its assertion: samples per step %v (want first 6, second 6), %d of second reported as successful (want 0)", cnt, okSecond), c)
+	}
+	res.Eval("http-scenario-failing-step", true)
+	res.Count("http_scenario_samples", int64(len(samples)))
 }
 
 func main() {
